@@ -42,7 +42,7 @@ claim("C20", "exploration",
 
 claim("C07", "exploration",
   "One scenario per run: a non-terminating guest of a tape-chosen cycle shape (10 shapes incl. every tail-call form, indirect calls, loops entered from host callbacks; with padding) x yielding/pure spin x cause (cancel, deadline, close from another goroutine, Runtime.Close) x moment (already done, k-th host callback, second goroutine), both engines. Oracle: the call returns (watchdog: a hang is the violation), exit error with the cause's code, module closed, and for yielding guests a plan-derived bound on host callbacks after the closed flag is visible. Sampling over shapes and moments, not proof that every cycle has a check.",
-  "Trusted: the shape catalogue covers the ways to form a cycle; for pure spins on the compiler the cancellation instant is not controlled (oracle is moment-independent). Watchdog 30 s is >10^4 x the healthy latency. Known findings recognised by signature: a WASI call under a concurrent Close dereferences the released system context (cycles that call sched_yield, causes close-from-goroutine / runtime-close); a guest parked in memory.atomic.wait is not woken (class parked, the call runs in an abandoned goroutine); recursion without loops is not interrupted (class recursion, sacrificial child under the watchdog). Class start-function: a guest spinning in its start-section function (inside InstantiateModule).",
+  "Trusted: the shape catalogue covers the ways to form a cycle; for pure spins on the compiler the cancellation instant is not controlled (oracle is moment-independent). Watchdog 30 s is >10^4 x the healthy latency. Known findings recognised by signature: a WASI call under a concurrent Close dereferences the released system context (cycles that call sched_yield, causes close-from-goroutine / runtime-close); a guest parked in memory.atomic.wait is not woken (class parked, the call runs in an abandoned goroutine); recursion without loops is not interrupted (class recursion, sacrificial child under the watchdog). A guest sleeping in poll_oneoff with a real sleep configured is not interrupted (class sleeping). Class start-function: a guest spinning in its start-section function (inside InstantiateModule).",
   "deterministic simulation: simulator-owned cancellation moment and cause over cycle-shape guests, liveness by supervisor watchdog and step bound, replay of the scenario tape",
   "DESIGN.md §5 C07")
 
@@ -66,7 +66,7 @@ claim("C13", "fault_enumeration",
 
 claim("C10", "exploration",
   "Seeded schedule search over real goroutines under a baton scheduler on an instrumented scratch copy (statement-level yields in runtime.go, builder.go and the store files; scheduler-aware sync/atomic shims): 2-4 clients x 2-6 operations over a small name set, a fifth of the instantiations failing in a start function after the instance was registered; the recorded invoke/return history plus a sequential probe is checked with porcupine against the atomic-registry specification; additionally no operation may panic, no deadlock, and close notifications fire exactly once for closed modules. Policies: uniform, PCT-style, sequential. Sampling of schedules, not exhaustive.",
-  "Trusted: the go/ast instrumenter and shims (forwarding outside the simulation), the registry specification (about 120 lines), porcupine v1.3.0. Interleavings are decided at inserted yield points only. Known findings recognised by signature (two-phase close via a relaxed specification; compiled-entry deletion via error text + history condition; an importer whose start function failed pins the exporter's allocator memory). Class async-close-concurrent: several calls in flight on one module under close-on-context-done, interleaved statement by statement (watcher goroutines are tasks: their select is polled). Lock-discipline assertions inserted for the fields documented as guarded (store registry, engine tables) are reported as violations. Sequential classes: context-close, registry-large (hundreds of names), resources (files released exactly once on every way of closing, with failing closes and large sparse descriptor tables).",
+  "Trusted: the go/ast instrumenter and shims (forwarding outside the simulation), the registry specification (about 120 lines), porcupine v1.3.0. Interleavings are decided at inserted yield points only. Known findings recognised by signature (two-phase close via a relaxed specification; compiled-entry deletion via error text + history condition; an importer whose start function failed pins the exporter's allocator memory). Class async-close-concurrent: several calls in flight on one module under close-on-context-done, interleaved statement by statement (watcher goroutines are tasks: their select is polled); class async-close-finishing: the context is cancelled by the call's last host function, the watcher marks the module before, while or after the call's last closed-check. Lock-discipline assertions inserted for the fields documented as guarded (store registry, engine tables) are reported as violations. Sequential classes: context-close, registry-large (hundreds of names), resources (files released exactly once on every way of closing, with failing closes and large sparse descriptor tables).",
   "deterministic simulation: seeded baton scheduler over instrumented real code, linearizability checking of recorded histories (porcupine), lock-discipline assertions under the scheduler, schedule shrinking + replay",
   "DESIGN.md §5 C10")
 
